@@ -7,6 +7,10 @@
 // (after sort_rows on entry both runs execute the same instructions on the same data; one
 // thread).  Values are printed exactly (every double is a dyadic rational).
 // Op:  pcrt <class> <relax> <crs A>  ->  {n n | row i = apply(e_i)}
+// Round 2b (seeded C17-2), entry points that take the user matrix AFTER construction: classes
+//   rb_amg     runtime::preconditioner<B>(A0, class=amg).rebuild(A)      (runtime.hpp:210-229 forwards to amg::rebuild(const Matrix&))
+//   rb_ms_amg  make_solver<runtime::preconditioner, runtime::solver::wrapper>(A0).precond().rebuild(A)
+// A0 = the sorted matrix with the diagonal doubled (same in the shuffled and in the sorted run).
 #include "vq_io.hpp"
 #include <boost/property_tree/ptree.hpp>
 #include <amgcl/backend/builtin.hpp>
@@ -28,6 +32,18 @@ struct Arrays {
         n = t.i(); long m = t.i(); if (m != n) throw std::invalid_argument("square");
         ptr.push_back(0);
         for (long r = 0; r < n; ++r) { long k = t.i(); for (long e = 0; e < k; ++e) { col.push_back(t.i()); val.push_back(t.d()); } ptr.push_back(col.size()); }
+    }
+    Arrays() : n(0) {}
+    Arrays base(double dscale) const {      // rows sorted by column, diagonal scaled: the construction-time matrix
+        Arrays a; a.n = n; a.ptr.push_back(0);
+        for (ptrdiff_t i = 0; i < n; ++i) {
+            std::vector<std::pair<ptrdiff_t, double> > e;
+            for (ptrdiff_t j = ptr[i]; j < ptr[i + 1]; ++j) e.push_back(std::make_pair(col[j], col[j] == i ? dscale * val[j] : val[j]));
+            std::stable_sort(e.begin(), e.end(), [](const std::pair<ptrdiff_t, double> &x, const std::pair<ptrdiff_t, double> &y) { return x.first < y.first; });
+            for (auto &x : e) { a.col.push_back(x.first); a.val.push_back(x.second); }
+            a.ptr.push_back(a.col.size());
+        }
+        return a;
     }
 };
 template <class P> static std::string dense_apply(const P &p, long n) {
@@ -66,6 +82,21 @@ static std::string body(Tok &t) {
         if (cls == "ms_amg") { prm.put("precond.class", "amg"); amg_tree(prm, "precond.", relax); }
         else { prm.put("precond.class", "relaxation"); prm.put("precond.type", relax); }
         S s(A, prm);
+        return dense_apply(s, a.n);
+    }
+    if (cls == "rb_amg" || cls == "rb_ms_amg") {
+        Arrays a0 = a.base(2.0);
+        auto A0 = std::tie(a0.n, a0.ptr, a0.col, a0.val);
+        if (cls == "rb_amg") {
+            prm.put("class", "amg"); amg_tree(prm, "", relax);
+            amgcl::runtime::preconditioner<B> P(A0, prm);
+            P.rebuild(A);
+            return dense_apply(P, a.n);
+        }
+        typedef amgcl::make_solver< amgcl::runtime::preconditioner<B>, amgcl::runtime::solver::wrapper<B> > S;
+        prm.put("solver.type", "preonly"); prm.put("precond.class", "amg"); amg_tree(prm, "precond.", relax);
+        S s(A0, prm);
+        s.precond().rebuild(A);
         return dense_apply(s, a.n);
     }
     throw std::invalid_argument("class");
